@@ -3,7 +3,7 @@
 # and the demonstration with / without the patch; result appended to /tmp/seeded_confirm/<id>.txt
 ID="$1"; S=/verif/seeded/$ID; D=/tmp/seeded_confirm/work_$ID; mkdir -p /tmp/seeded_confirm
 rm -rf $D; mkdir -p $D && git -C /repo archive --format=tar HEAD | tar -x -C $D
-cd $D && cp $S/demo.py demo_seeded.py
+cd $D && cp $S/*.py . && cp $S/demo.py demo_seeded.py
 PYTHONPATH=$D/src timeout 600 /venv/bin/python demo_seeded.py >/dev/null 2>&1; P0=$?
 git init -q . 2>/dev/null; git apply $S/patch.diff || { echo "$ID PATCH-FAILED" > /tmp/seeded_confirm/$ID.txt; exit 2; }
 PYTHONPATH=$D/src timeout 600 /venv/bin/python demo_seeded.py >/dev/null 2>&1; P1=$?
